@@ -127,6 +127,7 @@ structure CoreSt where
   rmPlaced : List String := []   -- keys the RM itself reported as bound (external placement / recovery)
   lostInflight : List String := []   -- real halves of cross-node replacements whose ask was released while in flight (known class I7r)
   lostTimeout : List String := []    -- … whose ask was dropped by the placeholder timeout of a not yet running application (known class I7o)
+  phGoneByRM : List String := []     -- real halves whose placeholder the RM released while the swap was in flight (known class C06 …+placeholder-released-by-rm)
   swapRolledBack : List String := [] -- applications whose in-flight swap was rolled back by the removal of a node (known class C10 …+swap-rolled-back)
 
 def firstSome (l : List (Unit → Option String)) : Option String := l.findSome? (fun f => f ())
@@ -339,8 +340,20 @@ def coreStep (st : CoreSt) (j : Json) : Except String (CoreSt × String) := do
     | some pre => if !(op == "node" && (jStr (fldD j "action" (.str ""))).toOption.getD "" == "decommission") then [] else
         (pre.liveApps.filter (fun a => a.items.any (·.inflightReal))).map (·.id)
     | none => []
+  -- Known class (KNOWN_FINDINGS C06): the RM itself releases a placeholder whose swap is in flight (STOPPED_BY_RM by key, for
+  -- the whole application): the placeholder goes, its real half stays allocated-but-unbound for good
+  let relType := if op == "release" then (jStr (fldD j "type" (.str ""))).toOption.getD "" else ""
+  let phGoneNow : List String := match st.prev with
+    | some pre => if !(relType == "STOPPED_BY_RM" || relType == "UNKNOWN") then [] else
+        (pre.liveApps.map (fun a => (a.items.filterMap (fun i =>
+          if i.ph && i.bound && ((relKey != "" && i.key == relKey) || (relApp != "" && a.id == relApp)) then i.release else none)))).flatten
+    | none => []
+  let phGone := st.phGoneByRM ++ phGoneNow
   let rolled := st.swapRolledBack ++ rolledNow
-  let st' : CoreSt := { st' with lostInflight := lost, lostTimeout := lostT, swapRolledBack := rolled }
+  let st' : CoreSt := { st' with lostInflight := lost, lostTimeout := lostT, swapRolledBack := rolled, phGoneByRM := phGone }
+  let fails := fails.map (fun f =>
+      if f.startsWith "C06.inflight-real-without-placeholder " && phGone.contains (keyOf f) then
+        "C06.inflight-real-without-placeholder+placeholder-released-by-rm " ++ keyOf f else f)
   let fails := fails.map (fun f =>
       if f.startsWith "C10.completing-with-pending-ask " && rolled.contains (keyOf f) then
         "C10.completing-with-pending-ask+swap-rolled-back-by-node-removal " ++ keyOf f else f)
